@@ -1,20 +1,21 @@
 SPECIFICATION Spec
 CONSTANTS
   Prods = {"ulc", "ntag", "ev1", "n203"}
-  KeyParts = {"k0", "kA"}
+  KeyParts = {"k0"}
   Variants = {"a"}
-  PFs = {0, 300}
-  MaxOps = 1
-  MaxAdv = 1
+  PFs = {0}
+  MaxOps = 2
+  MaxAdv = 0
   MaxCut = 1
   MaxChal = 8
-  Defects = {"ev1_no_cfgpage", "ulc_short_response", "fmt_defaults_unchecked"}
+  Defects = {}
   ImmModes = {TRUE, FALSE}
   NakModes = {TRUE, FALSE}
   AdvKinds = {"flip", "trunc", "replay"}
-  Ops = {"auth", "protect", "lock", "ndef", "format"}
+  Ops = {"protect", "lock", "ndef", "format"}
 INVARIANT Reached
 INVARIANT TypeOK
+INVARIANT ResultTyped
 INVARIANT AuthSound
 INVARIANT AuthComplete
 INVARIANT Mutual
@@ -22,6 +23,8 @@ INVARIANT ProtectSound
 INVARIANT ProtectKey
 INVARIANT ProtectThenAuth
 INVARIANT KeyKnown
+INVARIANT LockSound
+INVARIANT FormatSound
 INVARIANT Confined
 PROPERTY OneWay
 CHECK_DEADLOCK FALSE
